@@ -135,3 +135,46 @@ func vfGenIndexQuery(d *vfDB, r *rand.Rand) (q *vfQuery) {
 	q.root = n
 	return q
 }
+
+// vfGenFixedNonNumberQuery: a where that does arithmetic on a column which an extend (or a leftjoin with a source that
+// cannot have rows) fixes to "" or false - both are zero in arithmetic, so the query is valid - optionally below a
+// project / sort. The optimizer substitutes fixed values into the predicate when it moves the where.
+func vfGenFixedNonNumberQuery(d *vfDB, r *rand.Rand) (q *vfQuery) {
+	defer func() {
+		if e := recover(); e != nil {
+			if _, ok := e.(vfTooBig); ok {
+				q = nil
+				return
+			}
+			panic(e)
+		}
+	}()
+	g := vfNewGen(r, d)
+	t := vfPick(r, d.tables)
+	src := g.tableNode(t)
+	name := g.newName(vfNum, vfColNames(src.out))
+	lit := vfS("")
+	if r.IntN(3) == 0 {
+		lit = vfBoolDom[1] // false
+	}
+	ext := g.finish(&vfNode{op: "extend", src: src, out: append(slices.Clone(src.out), vfCol{name, vfNum}),
+		ecols: []string{name}, eexprs: []*vfExpr{vfConst(lit)}})
+	x := vfColRef(name)
+	var lhs *vfExpr
+	switch r.IntN(4) {
+	case 0:
+		lhs = vfOp("add", vfConst(vfInt(1)), x)
+	case 1:
+		lhs = vfOp("neg", x)
+	case 2:
+		lhs = vfOp("mul", vfOp("add", x, vfConst(vfInt(2))), vfConst(vfInt(3)))
+	default:
+		lhs = vfOp("sub", x, vfConst(vfInt(1)))
+	}
+	pred := vfOp(vfPick(r, []string{"lte", "gte", "is", "isnt"}), lhs, vfConst(vfInt(r.IntN(4))))
+	if nums := g.exprGen(ext).colsOf(vfNum); len(nums) > 1 && r.IntN(2) == 0 {
+		pred = vfOp("and", pred, vfOp("gte", vfOp("add", x, vfColRef(vfPick(r, nums).name)), vfConst(vfInt(0))))
+	}
+	n := g.finish(&vfNode{op: "where", src: ext, expr: pred, out: ext.out})
+	return &vfQuery{root: n}
+}
